@@ -1169,7 +1169,11 @@ fn fixup_struct(
 ) -> (Option<String>, BaseType) {
     let mut new_structitems = Vec::<DataItem>::new();
     for item in structitems {
-        new_structitems.extend(fixup_add_data_to_struct(spec, item, defined_types));
+        // a struct that is a member of this struct stays a member (the generic IF_DATA keeps it nested as well);
+        // only the data of a tagged item or block is merged into its parent, in fixup_output_block
+        if item.basetype != BaseType::None {
+            new_structitems.push(fixup_make_dataitem(spec, item, defined_types));
+        }
     }
     fixup_make_varnames_unique(&mut new_structitems);
 
